@@ -20,15 +20,10 @@ import repo_check as rc
 ORACLES = [rc.o6_methods]
 RESTORE = dict()
 
-FIXED_NAMES = ['a.txt', 'model.bin', 'model.json', 'model', 'm.b', 'm.j', '.hidden', '.hidden.cfg', 'archive.tar.gz', 'archive.tar.xz',
+FIXED_NAMES = ['a.txt', '.a.txt.xvc-tmp', 'model.bin', 'model.json', 'model', 'm.b', 'm.j', '.hidden', '.hidden.cfg', 'archive.tar.gz', 'archive.tar.xz',
                'x..y', 'trailing.', 'sp ace.dat', 'sp ace.txt', 'ünï.bin', 'ünï.json', 'a.xvc-tmp', 'xvc-tmp', 'noext', 'N.B', 'n.b',
                '-dash.bin', 'a.b.c.d', 'é', '日本.語']
 ALPHABET = ['a', 'b', 'm', 'Z', '0', '.', '.', '-', '_', ' ', 'é', 'ß', '語', 'x', 'v', 'c', 't', 'p']
-
-
-def is_tmp_shape(name_bytes):
-    """python twin of isTmpB (cross-checked against the model driver for every name of the stream)"""
-    return len(name_bytes) >= 9 and name_bytes[:1] == b'.' and name_bytes.endswith(b'.xvc-tmp')
 
 
 def gen_names(rng, n):
@@ -38,8 +33,6 @@ def gen_names(rng, n):
         s = ''.join(rng.choice(ALPHABET) for _ in range(k))
         if s in ('.', '..') or s.endswith(' ') or s.startswith(' ') or s.startswith('-') or s in out:
             continue          # blanks at the ends / leading dash are a matter of the argument parser and .gitignore (C16), not of C17
-        if is_tmp_shape(s.encode()):
-            continue
         out.append(s)
     # siblings of one stem
     for s in list(out[len(FIXED_NAMES):len(FIXED_NAMES) + n // 3]):
@@ -64,11 +57,12 @@ def ask_model(model, lines):
 
 def tmp_name_stream(chk, xvc, model, n_random):
     """Which directory entries does the binary touch when it copies a file out of the cache?  strace reports every
-    rename(2); the source of a rename whose destination is a workspace path is the temporary name."""
+    rename(2); the source of a rename whose destination is a workspace path is the temporary entry.  The model says:
+    `.xvc/tmp/<pid>-<k>`, k = 0, 1, 2, ... in the order of the copies of the process (TmpName.lean)."""
     from xvcbin import Sandbox
     st = chk.tie['streams'].setdefault('tmp-name', {'names': 0, 'renames_observed': 0, 'disagreements': 0, 'commands_traced': 0})
     if not shutil.which('strace'):
-        chk.notes.append('strace not available: temporary names not observed')
+        chk.notes.append('strace not available: temporary entries not observed')
         return 0
     rng = random.Random(f'c17-tmp-{chk.seed}')
     names = gen_names(rng, n_random)
@@ -81,18 +75,29 @@ def tmp_name_stream(chk, xvc, model, n_random):
         p = d + nm
         sb.write(p, f'content of {i}\n'.encode() * 3)
         paths.append(p)
+    # files of the USER that are named like temporary files of earlier schemes (`.<name>.xvc-tmp`, `<stem>.xvc-tmp`): never tracked
+    users = {}
+    for p in paths[:40:3]:
+        d, f = os.path.split(p)
+        for un in (f'.{f}.xvc-tmp', f'{f.rsplit(".", 1)[0] if "." in f[1:] else f}.xvc-tmp'):
+            up = os.path.join(d, un)
+            if up not in paths and up not in users:
+                users[up] = f'the user\'s own file {up}\n'.encode()
+                sb.write(up, users[up])
     want_root = os.path.realpath(sb.root)
-    observed = {}          # path -> set of temp basenames (bytes)
-    foreign = []
+    observed = {}          # path -> list of rename sources (relative, bytes)
+    per_command = []
 
     def traced(args, label):
         tf = os.path.join(sb.base, f'trace-{label}')
-        rc_, out, err = sb.run(['strace', '-f', '-qq', '-xx', '-s', '4096', '-o', tf, '-e', 'trace=rename,renameat,renameat2', xvc] + args)
+        rc_, out, err = sb.run(['strace', '-f', '-qq', '-xx', '-s', '4096', '-o', tf, '-e', 'trace=execve,rename,renameat,renameat2', xvc] + args)
         st['commands_traced'] += 1
-        pending = {}
+        pending, srcs, pid0 = {}, [], None
         for line in open(tf, errors='replace'):
             # with -f a call of one thread may be printed in two pieces around the calls of other threads
             pid = line.split(' ', 1)[0]
+            if pid0 is None and ' execve(' in line:
+                pid0 = pid
             mu = re.search(r'rename(?:at2?)?\((?:AT_FDCWD, )?"((?:\\x[0-9a-f]{2})*)", (?:AT_FDCWD, )?"((?:\\x[0-9a-f]{2})*)"(?:, [A-Z_0-9|]+)?\s*<unfinished', line)
             if mu:
                 pending[pid] = mu; continue
@@ -108,59 +113,68 @@ def tmp_name_stream(chk, xvc, model, n_random):
             src_abs = os.path.normpath(os.path.join(want_root.encode(), src))
             dst_abs = os.path.normpath(os.path.join(want_root.encode(), dst))
             rel = os.path.relpath(dst_abs, want_root.encode())
-            if rel.startswith(b'.xvc/') or rel.startswith(b'..'):
-                continue          # cache / store files
+            if rel.startswith((b'.xvc/', b'.git/', b'..')):
+                continue          # cache / store files, git's own lock files
             st['renames_observed'] += 1
-            if os.path.dirname(src_abs) != os.path.dirname(dst_abs):
-                foreign.append((label, src_abs.decode('utf-8', 'replace'), dst_abs.decode('utf-8', 'replace')))
-            observed.setdefault(rel, set()).add(os.path.basename(src_abs))
+            srel = os.path.relpath(src_abs, want_root.encode())
+            observed.setdefault(rel, []).append((label, srel))
+            srcs.append(srel)
+        per_command.append((label, pid0, srcs))
         return rc_, out, err
 
     # parallel track (copy method: the file is moved to the cache and copied back), then delete and recheck (serial and "parallel")
-    r1 = traced(['file', 'track', '--recheck-method', 'copy'] + paths, 'track')
+    r1 = traced(['file', 'track', '--recheck-method', 'copy', '--'] + paths, 'track')
     for p in paths[::2]:
         if os.path.lexists(sb.path(p)): os.unlink(sb.path(p))
-    r2 = traced(['file', 'recheck'] + paths[::2], 'recheck')
+    r2 = traced(['file', 'recheck', '--'] + paths[::2], 'recheck')
     for p in paths[1::2]:
         if os.path.lexists(sb.path(p)): os.unlink(sb.path(p))
-    r3 = traced(['file', 'recheck', '--no-parallel'] + paths[1::2], 'recheck-np')
+    r3 = traced(['file', 'recheck', '--no-parallel', '--'] + paths[1::2], 'recheck-np')
     for (rc_, out, err), label in ((r1, 'track'), (r2, 'recheck'), (r3, 'recheck-np')):
         chk.count(f'tmp-name:{label}:rc={rc_}')
-    lines = [f'tmpname {os.path.basename(p).encode().hex()}' for p in paths] + [f'istmp {os.path.basename(p).encode().hex()}' for p in paths]
-    ans = ask_model(model, lines)
+        if rc_ != 0:
+            chk.disagreement('tmp-name', {'command': label}, f'rc={rc_}: {err[-300:]}', 'rc=0', 'a command of the tmp-name stream failed')
+
+    def complain(case, impl, mod, note):
+        st['disagreements'] += 1
+        if st['disagreements'] <= 4:
+            chk.disagreement('tmp-name', case, impl, mod, note)
+    # per command: the sources are exactly the entries the model allocates to a process with that many copies
+    for label, pid0, srcs in per_command:
+        if not srcs:
+            continue
+        ans = ask_model(model, [f'alloc {pid0} 0 {len(srcs)}'])
+        if ans is None:
+            continue
+        want = sorted('.xvc/tmp/' + x for x in ans[0].split(' '))
+        got = sorted(x.decode('utf-8', 'replace') for x in srcs)
+        if want != got:
+            complain({'command': label, 'copies': len(srcs), 'process': pid0}, 'renamed from ' + ', '.join(got[:6]) + (' ...' if len(got) > 6 else ''),
+                     'temporary entries ' + ', '.join(want[:6]) + (' ...' if len(want) > 6 else ''),
+                     'the temporary entries the binary uses are not the ones of the model (TmpName.lean: `.xvc/tmp/<pid>-<k>`, one counter value per copy; '
+                     'Props/C17Tmp: footprints of different targets are disjoint)')
     for i, p in enumerate(paths):
         st['names'] += 1
         chk.evaluations += 1
-        nb = os.path.basename(p).encode()
-        obs = observed.get(p.encode(), set())
+        obs = observed.get(p.encode(), [])
         chk.count('tmp-name:path-observed' if obs else 'tmp-name:path-not-renamed')
         if obs: chk.nontrivial.add('tmp:' + p)
-        if ans is None:
-            continue
-        mt, mi = ans[i], ans[len(paths) + i]
-        if mi != ('1' if is_tmp_shape(nb) else '0'):
-            st['disagreements'] += 1
-            chk.disagreement('tmp-name', {'name': p}, f'python isTmp={is_tmp_shape(nb)}', f'model isTmpB={mi}', 'the reserved-shape test of the generator differs from the model')
-        bad = [o for o in obs if o.hex() != mt]
-        if bad or not obs:
-            st['disagreements'] += 1
-            if st['disagreements'] <= 4: chk.disagreement('tmp-name', {'path': p, 'commands': 'track --recheck-method copy; delete; recheck'},
-                             'renamed from ' + (', '.join(repr(o.decode('utf-8', 'replace')) for o in sorted(obs)) or 'nothing (no rename to this path observed)'),
-                             ('tmpName = ' + repr(bytes.fromhex(mt).decode('utf-8', 'replace'))) if re.fullmatch(r'[0-9a-f]*', mt or 'x') else str(mt),
-                             'the temporary entry the binary uses for this path is not the one of the model (Props/C17Tmp: footprints of different targets are disjoint)')
-    if foreign:
-        st['disagreements'] += 1
-        chk.disagreement('tmp-name', {'renames': foreign[:5]}, 'temporary entry in another directory than the path', 'tmpPath keeps the directory', '')
-    # nothing of the reserved shape is left behind
-    left = []
+        if not obs:
+            complain({'path': p, 'commands': 'track --recheck-method copy; delete; recheck'}, 'no rename onto this path observed',
+                     'copyProc: createNew tmp; write tmp; rename tmp -> path', 'the copy step of the binary does not go through a temporary entry')
+    # nothing is left behind: no entry in .xvc/tmp, no entry of a temporary shape next to the targets
+    left = [os.path.join('.xvc/tmp', f) for f in (os.listdir(sb.path('.xvc/tmp')) if os.path.isdir(sb.path('.xvc/tmp')) else [])]
     for root, ds, fs in os.walk(sb.root):
         if '.xvc' in ds: ds.remove('.xvc')
         if '.git' in ds: ds.remove('.git')
-        left += [os.path.join(root, f) for f in fs if f not in names and (is_tmp_shape(f.encode()) or f.endswith('.xvc-tmp'))]
+        for f in fs:
+            rel = os.path.relpath(os.path.join(root, f), sb.root)
+            if f.endswith('.xvc-tmp') and rel not in paths and rel not in users:
+                left.append(rel)
     if left:
-        chk.oracle_failure('temporary entries left in the workspace after successful commands', {'tmp_case': 'tmp-name', 'left': left[:5]}, None,
+        chk.oracle_failure('temporary entries left after successful commands', {'tmp_case': 'tmp-name', 'left': left[:5]}, None,
                            signature={'kind': 'temporary-entry-left'})
-    # every file is what was tracked
+    # every file is what was tracked; the user's files with temporary-looking names are untouched (C03)
     for i, p in enumerate(paths):
         want = f'content of {i}\n'.encode() * 3
         try:
@@ -170,6 +184,15 @@ def tmp_name_stream(chk, xvc, model, n_random):
         if got != want:
             chk.oracle_failure(f'{p}: not the tracked bytes after track/delete/recheck', {'tmp_case': 'tmp-name', 'path': p, 'names': names}, None,
                                signature={'kind': 'parallel-copy-wrong-entry'})
+    for up, want in users.items():
+        try:
+            got = open(sb.path(up), 'rb').read()
+        except OSError as e:
+            got = repr(e).encode()
+        chk.count('tmp-name:user-file-with-temporary-name:' + ('kept' if got == want else 'LOST'))
+        if got != want:
+            chk.oracle_failure(f'the untracked file {up} of the user was destroyed by copying its neighbour out of the cache', {'tmp_case': 'tmp-name', 'path': up}, None,
+                               signature={'kind': 'user-file-with-temporary-name-destroyed'})
     return st['disagreements']
 
 
@@ -248,12 +271,12 @@ def tmp_streams(chk):
     chk.extra['rule'] = chk.extra.get('rule', '') + (
         ' || tmp-name stream: one repository with fixed + generated file names (dots at every position, same stem with different extensions, blanks, '
         'non-ASCII, hidden, names ending in .xvc-tmp) in two directories; parallel `track --recheck-method copy`, delete, `recheck` and `recheck --no-parallel` under '
-        'strace -e rename*: the source of every rename onto a workspace path is compared with the model\'s tmpName (driver tmpmodel), same directory required, '
-        'no temporary entry left, bytes as tracked || parallel-siblings stream: fresh repositories with 6 pairs s<i>.bin/s<i>.json of 2-4 MiB random bytes, '
+        'strace -e rename*: the sources of the renames onto workspace paths of each command are compared with the entries the model allocates (driver tmpmodel: `.xvc/tmp/<pid>-<k>`, k = 0..n-1), '
+        'no temporary entry left, bytes as tracked, untracked files of the user named `.<name>.xvc-tmp` / `<stem>.xvc-tmp` next to the targets keep their bytes || parallel-siblings stream: fresh repositories with 6 pairs s<i>.bin/s<i>.json of 2-4 MiB random bytes, '
         'parallel track by copy, delete all, parallel recheck; every entry must be a regular user-writable file with its own bytes (16 rounds of 4 MiB when the '
         'tmp-name tie or a XvcRepo proof broke)')
-    chk.assumptions.append('no tracked file is itself named `.<name>.xvc-tmp` (the reserved shape of copy_file\'s temporary entries; hypothesis ¬IsTmp of C17_parallel_copies_materialise); '
-                           'the kernel executes each rename/unlink/open atomically with respect to the other threads (FsOp.apply)')
+    chk.assumptions.append('the kernel executes each rename/unlink/open atomically with respect to the other threads (FsOp.apply); the rendering `<pid>-<k>` of a temporary entry is injective '
+                           '(Entry.tmp carries the pair, the tie compares the spelling); the cross-device fallback of copy_to_workspace (sibling `.<name>.<pid>.xvc-tmp`, created exclusively) is not modelled')
 
 
 def run(chk):
